@@ -1096,6 +1096,9 @@ impl<'a> Visitor<'a, '_, Error> for JSONValidator<'a> {
     }
 
     let error_count = self.errors.len();
+    // An alternative that fails consumes nothing: the keys it claimed before
+    // failing are available to the alternative tried next
+    let claimed_before = self.validated_keys.clone();
     for ge in group_choice_alternates {
       let cur_errors = self.errors.len();
       self.visit_group_entry(ge)?;
@@ -1106,6 +1109,7 @@ impl<'a> Visitor<'a, '_, Error> for JSONValidator<'a> {
 
         return Ok(());
       }
+      self.validated_keys = claimed_before.clone();
     }
 
     // The base definition is one more alternative: when it matches, the
@@ -1273,7 +1277,13 @@ impl<'a> Visitor<'a, '_, Error> for JSONValidator<'a> {
     self.state.is_ctrl_map_equality = false;
 
     let initial_error_count = self.errors.len();
-    for group_choice in g.group_choices.iter() {
+    // An alternative that fails consumes nothing (RFC 8610 Appendix A): the
+    // keys it claimed before failing are available to the next alternative
+    let claimed_before = self.validated_keys.clone();
+    for (idx, group_choice) in g.group_choices.iter().enumerate() {
+      if idx > 0 {
+        self.validated_keys = claimed_before.clone();
+      }
       let error_count = self.errors.len();
       self.visit_group_choice(group_choice)?;
       if self.errors.len() == error_count {
@@ -3280,6 +3290,9 @@ impl<'a> Visitor<'a, '_, Error> for JSONValidator<'a> {
       self.state.is_multi_group_choice = true;
     }
 
+    // An alternative that fails consumes nothing: the keys it claimed before
+    // failing are available to the alternative tried next
+    let claimed_before = self.validated_keys.clone();
     for ge in group_choice_alternates {
       let cur_errors = self.errors.len();
       self.visit_group_entry(ge)?;
@@ -3290,6 +3303,7 @@ impl<'a> Visitor<'a, '_, Error> for JSONValidator<'a> {
 
         return Ok(());
       }
+      self.validated_keys = claimed_before.clone();
     }
 
     // The base definition is one more alternative: when it matches, the
